@@ -742,7 +742,14 @@ class Sim:
             # device life cycle: this very Device object was already simulated on (another field, a few
             # steps) before the run under test - and before it is moved / saved / copied
             device = device.copy(with_mesh=True)
+            was = used.get("layer_was") or {}
+            for attr_, val_ in was.items():
+                # the film had other material parameters when it was used before (a penetration-depth or
+                # thickness sweep on one meshed device): they are assigned in place afterwards
+                setattr(device.layer, attr_, val_)
             self._prior_use(device, used)
+            for attr_ in was:
+                setattr(device.layer, attr_, {"london_lambda": dev_spec["layer"]["lam"], "thickness": dev_spec["layer"]["d"], "gamma": dev_spec["layer"]["gamma"], "u": dev_spec["layer"]["u"]}[attr_])
             h.probe("device_used_before")
         mv = scn.get("device_moved")
         if mv:
